@@ -477,3 +477,51 @@ Proof.
     injection E4 as <- <-. exact (dec_sadr_ok _ _ _ E).
   - injection E4 as <- <-. exact I.
 Qed.
+
+(* ---------- statements in terms of the encoder's own output ---------- *)
+Lemma npci_truncated_enc h bs k : wf_npci h = true -> enc_npci h = Ok bs -> (k < length bs)%nat ->
+  dec_npci (firstn k bs) = Err DecodingError.
+Proof.
+  intros H E Hk. rewrite enc_npci_spec in E by assumption. injection E as <-.
+  apply npci_truncated; assumption.
+Qed.
+
+Lemma npci_bad_sadr h net mac payload :
+  wf_npci (with_sadr h None) = true -> net < 65536 -> lenN mac < 256 -> (net = 65535 \/ mac = []) ->
+  exists bs, enc_npci (with_sadr h (Some (RStation net mac))) = Ok bs
+    /\ bs = spec6_2 (with_sadr h (Some (RStation net mac)))
+    /\ dec_npci (bs ++ payload) = Err DecodingError.
+Proof.
+  intros H Hn Hl Hb. eexists. split; [apply enc_npci_bad_sadr; assumption|].
+  split; [reflexivity|]. apply dec_npci_bad_sadr; assumption.
+Qed.
+
+Lemma npci_version_enc h bs v payload : wf_npci h = true -> enc_npci h = Ok bs -> v <> 1 ->
+  dec_npci ((v :: tl bs) ++ payload) = Err DecodingError.
+Proof.
+  intros _ _ Hv. apply dec_npci_version. intros r E. cbn [app] in E. congruence.
+Qed.
+
+Lemma enc_npci_bytes_ok h bs : wf_npci h = true -> enc_npci h = Ok bs -> bytes_ok bs = true.
+Proof.
+  intros H E. rewrite enc_npci_spec in E by assumption. injection E as <-.
+  pose proof H as H0. split_wf H.
+  destruct (spec_control_ctl h ltac:(lia)) as [Ec Lc]. rewrite Ec in Lc.
+  unfold spec6_2. rewrite !bytes_ok_app.
+  assert (A : forall a, wf_dadr a = true \/ wf_sadr a = true -> bytes_ok (spec_addr a) = true).
+  { assert (S : forall net mac, wf_station net mac = true -> bytes_ok (spec_addr (RStation net mac)) = true).
+    { intros net mac Ha. unfold wf_station in Ha.
+      apply andb_true_iff in Ha as [Ha Hm]. cbn [spec_addr]. rewrite bytes_ok_app, Hm.
+      unfold bytes_ok, byte_ok. cbn [forallb]. lia. }
+    intros [net mac|net|] [Ha|Ha]; cbn [wf_dadr wf_sadr] in Ha; try discriminate; try (apply S; assumption);
+      cbn [spec_addr]; unfold bytes_ok, byte_ok; cbn [forallb]; lia. }
+  destruct h as [v e p d s hp m vd];
+    cbn [Npci.ver Npci.er Npci.prio Npci.dadr Npci.sadr Npci.hop Npci.nmsg Npci.vendor] in *.
+  rewrite !andb_true_iff. repeat split.
+  - unfold bytes_ok, byte_ok. cbn [forallb]. lia.
+  - destruct d as [a|]; cbn [opt_list wf_opt] in *; [apply A; left; assumption | reflexivity].
+  - destruct s as [a|]; cbn [opt_list wf_opt] in *; [apply A; right; assumption | reflexivity].
+  - destruct d, hp; try discriminate; cbn [opt_list]; unfold bytes_ok, byte_ok; cbn [forallb]; [lia | reflexivity].
+  - destruct m as [t|], vd; try discriminate; cbn [opt_list]; unfold bytes_ok, byte_ok, is_vendor_type in *; cbn [forallb]; lia.
+  - destruct m as [t|], vd; try discriminate; cbn [opt_list]; unfold bytes_ok, byte_ok, is_vendor_type in *; cbn [forallb]; lia.
+Qed.
